@@ -187,11 +187,60 @@ func checkC10(c c10Case) (ci caseInfo, err error) {
 			for k, v := range libFill {
 				oneCall[k] = v
 			}
-			extra := 0
+			extra, kept := 0, 0
+			after := map[string]bool{}
+			keptItemVar := ""
 			for _, a := range singleFills(next) {
+				after[a.Name] = true
 				if !before[a.Name] && extra < 2 && c.Variant%3 != 0 {
 					oneCall[a.Name] = a.goValue(c.Variant)
 					extra++
+				}
+				// names that the expansion leaves as they are (outside every repeated group, or in a group filled with 0)
+				// filled in the same call as the counts
+				if before[a.Name] && kept < 2 && c.Variant%4 >= 2 {
+					oneCall[a.Name] = a.goValue(c.Variant)
+					kept++
+					extra++
+					ci.label("one-call:counts+unchanged-names")
+				}
+				if before[a.Name] && a.Kind == "item" && keptItemVar == "" {
+					keptItemVar = a.Name
+				}
+			}
+			if len(libFill) > 0 {
+				// what is refused alone is refused next to a repeat count: a number for a list-level item variable
+				if keptItemVar != "" {
+					bad := map[string]interface{}{keptItemVar: 5}
+					if alone, _ := try(func() { res.FillVariables(bad) }); alone {
+						for k, v := range libFill {
+							bad[k] = v
+						}
+						var got ast.ItemNode
+						if p, _ := try(func() { got = lib.FillVariables(bad) }); !p {
+							return ci, fmt.Errorf("round %d: the number 5 for the item variable %q is refused alone but accepted next to the repeat counts %v: %s", r+1, keptItemVar, libFill, clipStr(itemString(got), 300))
+						}
+						ci.label("one-call:refused-value-next-to-counts")
+					}
+				}
+				// a key that names a variable only BEFORE the expansion names nothing afterwards and is ignored
+				for _, name := range ref.Variables() {
+					if after[name] || model.IsEllipsisName(name) {
+						continue
+					}
+					stale := map[string]interface{}{name: 5}
+					for k, v := range libFill {
+						stale[k] = v
+					}
+					var got ast.ItemNode
+					if p, pmsg := try(func() { got = lib.FillVariables(stale) }); p {
+						return ci, fmt.Errorf("round %d: the key %q names no variable once %v is applied, yet FillVariables(%v) panics: %s", r+1, name, libFill, stale, pmsg)
+					}
+					if itemString(got) != itemString(res) || !sameStrings(got.Variables(), res.Variables()) {
+						return ci, fmt.Errorf("round %d: the key %q names no variable once %v is applied, yet it changes the result:\nwith:    %s\nwithout: %s", r+1, name, libFill, clipStr(itemString(got), 400), clipStr(itemString(res), 400))
+					}
+					ci.label("one-call:stale-key-ignored")
+					break
 				}
 			}
 			msg := ast.NewDataMessage("c10", 1, 1, 0, "H->E", lib)
